@@ -17,6 +17,7 @@ def run(ctx, rep):
     walkrules.check_other_pos(ctx, rep)
     walkrules.check_walk(ctx, rep)
     walkrules.check_next_pos(ctx, rep)
+    walkrules.check_vertex_cycle(ctx, rep)
     oprules.check_assemble(ctx, rep, rule='G-sinks')
     oprules.check_trivial(ctx, rep, rule='G-sinks')
     # rings close only if the edges are selected consistently: the selection / propagation tables are a necessary condition
